@@ -10,6 +10,8 @@ use crate::printer::{Style, print};
 use crate::typed::{C03Verdict, D3_KEY, NBE_FUEL, SourceVerdict, d3_applicable, front_name, has_source_holes, judge_elaborated, judge_source, rules_of};
 use crate::util::{Json, Rng, clip, hash_str};
 
+pub const SMALL_BLOCK: u64 = 256;
+
 pub struct C03P;
 pub static C03: C03P = C03P;
 
@@ -80,8 +82,9 @@ impl Prop for C03P {
                 sec("explicit-programs", tier.pick(10_000, 200_000)),
                 sec("inferred-programs", tier.pick(10_000, 200_000)),
                 sec("perturbed-explicit-programs", tier.pick(25_000, 500_000)),
+                crate::fw::sec_ex("small-programs-exhaustive", crate::gen_small::total_upto(tier.pick(5, 6)).div_ceil(SMALL_BLOCK)),
             ],
-            "every (elaborated term, reported type) pair returned by type_check on generated explicit and inferred programs, on the corpus and on single-point perturbations of explicit programs (16 perturbation kinds aimed at the side conditions of each typing rule) is judged by an independent NbE checker; every perturbed explicit program the reference judges ill-typed as source must be rejected with at least one diagnostic; non-trivial = distinct accepted program judged, or distinct ill-typed program rejected",
+            "every (elaborated term, reported type) pair returned by type_check on generated explicit and inferred programs, on the corpus and on single-point perturbations of explicit programs (17 perturbation kinds aimed at the side conditions of each typing rule and at the definition-order check) and on every source program of at most 5 (quick) / 6 (thorough) nodes over the full syntax is judged by an independent NbE checker; every perturbed explicit program the reference judges ill-typed as source must be rejected with at least one diagnostic; non-trivial = distinct accepted program judged, or distinct ill-typed program rejected",
         );
         p.assumptions = vec![
             "R-core (harness/src/core.rs) implements DESIGN.md A.5/A.6; an unsolved hole left in an elaborated term is an opaque constant of type `type`".into(),
@@ -112,6 +115,25 @@ impl Prop for C03P {
                 let src = print(&p.h, &Style::varied(&mut r), idx).text;
                 let holes = has_source_holes(&p.h);
                 check_text(ctx, &src, holes, if explicit { "explicit" } else { "inferred" });
+            }
+            "small-programs-exhaustive" => {
+                let maxn = ctx.tier.pick(5, 6);
+                let total = crate::gen_small::total_upto(maxn);
+                let lo = idx * SMALL_BLOCK;
+                let hi = (lo + SMALL_BLOCK).min(total);
+                for i in lo..hi {
+                    let h = crate::gen_small::nth(maxn, i);
+                    let src = print(&h, &Style::plain(), 0).text;
+                    let holes = has_source_holes(&h);
+                    let obs = check_text(ctx, &src, holes, "small");
+                    if !holes {
+                        // explicit: the reference's verdict on the source decides
+                        if let (SourceVerdict::IllTyped(why), Front::Accepted) = (judge_source(&h), &obs.front) {
+                            viol(ctx, "accepts-ill-typed:small-program", &format!("the reference checker rejects this explicit program ({why}) but gram accepts it"), &src, &obs);
+                        }
+                    }
+                }
+                ctx.max("small_programs_max_nodes", maxn as u64);
             }
             "perturbed-explicit-programs" => {
                 let mut r = Rng::for_case(ctx.seed, 3, idx);
